@@ -49,6 +49,10 @@ func baseShapes() []baseShape {
 		// a concave hole: polygon material reaches into it as a spike with its tip at (3,2), so a shape can have
 		// the corners of its box strictly inside the hole and still cross the spike
 		{"square-notch-hole", poly(sq, pp(1, 1, 5, 1, 5, 5, 3, 2, 1, 5))},
+		// an L-shaped hole whose box covers a second, square hole lying in the crook of the L: which hole "the box of a
+		// probe fits into" is not which hole it lies in; both listing orders
+		{"square-L-hole-square-hole", poly(sq, pp(1, 1, 5, 1, 5, 2, 2, 2, 2, 5, 1, 5), pp(3, 3, 5, 3, 5, 5, 3, 5))},
+		{"square-square-hole-L-hole", poly(sq, pp(3, 3, 5, 3, 5, 5, 3, 5), pp(1, 1, 5, 1, 5, 2, 2, 2, 2, 5, 1, 5))},
 		{"zigzag-line", exact.Shape{K: exact.KLine, Line: pp(0, 0, 3, 3, 6, 0, 6, 6, 3, 3)}},
 		{"straight-line", exact.Shape{K: exact.KLine, Line: pp(0, 3, 2, 3, 4, 3, 6, 3)}},
 		{"rect", exact.Shape{K: exact.KRect, Min: exact.P{X: 2, Y: 4}, Max: exact.P{X: 10, Y: 8}}},
